@@ -42,6 +42,7 @@ struct Rng {
 
 struct Violation {
 	std::string property;   // e.g. "C13"
+	std::string oracle_property; // property the oracle was written for, when an engine reports it under another (alias)
 	std::string rule;       // oracle rule, e.g. "error-without-cause"
 	std::string key;        // finer key for known-findings matching
 	std::string detail;
@@ -49,6 +50,9 @@ struct Violation {
 };
 
 struct Kernel {
+	// an engine that drives one service through another (HA over async) reports the inner service's exactly-once / liveness
+	// oracles under its own property: alias_from -> alias_to (known findings still match on the original id)
+	std::string alias_from, alias_to;
 	// ---- clock: simulated wall clock in ms since the Unix epoch
 	int64_t now_ms = 0;
 	int64_t elapsed_ms = 0; // simulated time covered by this run (sum of forward advances)
